@@ -9,11 +9,13 @@ Definition carried (p : pc) : list msg :=
   | S_load _ todo => todo
   | S_alive _ m todo => m :: todo
   | S_push _ m todo => m :: todo
+  | S_lim _ m todo => m :: todo
   | S_link _ _ todo => todo
   | S_cas _ todo => todo
   | S_spawn _ todo => todo
   | P_init sends _ => sends
   | P_cb sends _ => sends
+  | P_lim m sends _ => m :: sends
   | P_link _ sends _ => sends
   | P_selfcas sends _ => sends
   | P_selfspawn sends _ => sends
@@ -29,7 +31,7 @@ Definition linking (k x : nat) (p : pc) : nat :=
 
 Definition IdI (N : nat -> nat) (s : shared) (C : nat -> nat) (L : nat -> nat -> nat) : Prop :=
   forall x,
-    C x + Qa x (qs s) + occ x (handled s) + occ x (errs s) = N x /\
+    C x + Qa x (qs s) + occ x (handled s) + occ x (errs s) + occ x (fbs s) = N x /\
     occ x (oks s) = occ x (handled s) + Ql x (qs s) /\
     (forall k, k <= 3 -> qu x (qget (qs s) k) = L k x).
 
@@ -48,8 +50,8 @@ Lemma qidx_idem k : qidx (qidx k) = qidx k.
 Proof. destruct k as [|[|[|k]]]; reflexivity. Qed.
 
 Ltac simp_ids :=
-  cbn [carried carry linking spawn_ww map mid qs handled errs oks upd_st upd_qs upd_intable upd_innames
-       add_handled add_ok add_err add_term set_killed set_initfail finalise] in *;
+  cbn [carried carry linking spawn_ww map mid qs handled errs oks fbs upd_st upd_qs upd_intable upd_innames
+       add_handled add_ok add_err add_fb add_term set_killed set_initfail finalise] in *;
   rewrite ?carry_next_send, ?linking_next_send, ?carry_enter_cb, ?linking_enter_cb in *;
   unfold carry in *; cbn [carried map] in *;
   rewrite ?occ_cons, ?occ_app, ?occ_single, ?occ_nil in *.
@@ -79,7 +81,7 @@ Proof.
     try (inversion Hstep; subst; clear Hstep; simp_ids;
          (split; [lia | split; [lia | intros kk Hkk; specialize (I3 kk Hkk); specialize (EL kk x); specialize (HL kk x);
                                        simp_ids; lia]])).
-  - (* S_push: head swap appends an unlinked entry *)
+  - (* S_push *)
     inversion Hstep; subst; clear Hstep. simp_ids.
     pose proof (Qa_qset x (qs s) (mq m) (qget (qs s) (mq m) ++ [(m, false)])) as HQ.
     pose proof (Ql_qset x (qs s) (mq m) (qget (qs s) (mq m) ++ [(m, false)])) as HQl.
@@ -90,7 +92,18 @@ Proof.
     destruct (Nat.eqb (qidx (mq m)) k) eqn:Ek; cbn [andb] in *.
     + apply Nat.eqb_eq in Ek. subst k. rewrite qu_snoc. rewrite qget_qidx in I3. lia.
     + lia.
-  - (* S_link: link store *)
+  - (* S_lim *)
+    inversion Hstep; subst; clear Hstep. simp_ids.
+    pose proof (Qa_qset x (qs s) (mq m) (qget (qs s) (mq m) ++ [(m, false)])) as HQ.
+    pose proof (Ql_qset x (qs s) (mq m) (qget (qs s) (mq m) ++ [(m, false)])) as HQl.
+    rewrite qa_snoc in HQ. rewrite ql_snoc in HQl.
+    split; [lia | split; [lia|]].
+    intros k Hk. specialize (I3 k Hk). specialize (EL k x). specialize (HL k x). simp_ids.
+    rewrite qget_qset. rewrite (qidx_le3 k Hk) in *.
+    destruct (Nat.eqb (qidx (mq m)) k) eqn:Ek; cbn [andb] in *.
+    + apply Nat.eqb_eq in Ek. subst k. rewrite qu_snoc. rewrite qget_qidx in I3. lia.
+    + lia.
+  - (* S_link *)
     inversion Hstep; subst; clear Hstep. simp_ids.
     set (q := qget (qs s) (mq m)) in *.
     assert (Hk3 : qidx (mq m) <= 3) by (destruct (mq m) as [|[|[|?]]]; cbn; lia).
@@ -119,7 +132,7 @@ Proof.
       destruct (Nat.eqb (qidx (mq m)) k) eqn:Ek.
       * apply Nat.eqb_eq in Ek. subst k. rewrite qget_qidx in I3. fold q in I3. lia.
       * lia.
-  - (* R_pop: a linked head entry moves to handled *)
+  - (* R_pop *)
     inversion Hstep; subst; clear Hstep. simp_ids.
     apply q_pop_some in Ep.
     pose proof (Qa_qset x (qs s) k q) as HQ. pose proof (Ql_qset x (qs s) k q) as HQl.
@@ -130,7 +143,18 @@ Proof.
     destruct (Nat.eqb (qidx k) k') eqn:Ek.
     + apply Nat.eqb_eq in Ek. subst k'. rewrite qget_qidx, Ep, qu_cons in I3. lia.
     + lia.
-  - (* P_cb (m :: sends): self-send head swap *)
+  - (* P_cb *)
+    inversion Hstep; subst; clear Hstep. simp_ids.
+    pose proof (Qa_qset x (qs s) (mq m) (qget (qs s) (mq m) ++ [(m, false)])) as HQ.
+    pose proof (Ql_qset x (qs s) (mq m) (qget (qs s) (mq m) ++ [(m, false)])) as HQl.
+    rewrite qa_snoc in HQ. rewrite ql_snoc in HQl.
+    split; [lia | split; [lia|]].
+    intros k Hk. specialize (I3 k Hk). specialize (EL k x). specialize (HL k x). simp_ids.
+    rewrite qget_qset. rewrite (qidx_le3 k Hk) in *.
+    destruct (Nat.eqb (qidx (mq m)) k) eqn:Ek; cbn [andb] in *.
+    + apply Nat.eqb_eq in Ek. subst k. rewrite qu_snoc. rewrite qget_qidx in I3. lia.
+    + lia.
+  - (* P_lim *)
     inversion Hstep; subst; clear Hstep. simp_ids.
     pose proof (Qa_qset x (qs s) (mq m) (qget (qs s) (mq m) ++ [(m, false)])) as HQ.
     pose proof (Ql_qset x (qs s) (mq m) (qget (qs s) (mq m) ++ [(m, false)])) as HQl.
